@@ -229,6 +229,13 @@ WRStep(pre, n, ret, e, tx) ==
      ELSE IF CtlBad(pre, n) /\ NoTransport(tx) /\ st.held = -1 THEN [st EXCEPT !.open = FALSE]
      ELSE Bad
 
+(* io.Copy / ReadFrom into the writer from a source that fails after ret bytes: the writer has taken exactly  *)
+(* those bytes, reports the source's error and stays usable (it is the source that failed, not the             *)
+(* connection); unless the connection itself made the call fail, which is judged as for a plain Write.         *)
+WRSStep(pre, n, ret, e, tx) ==
+  IF e.cls = "src" THEN WRStep(pre, ret, ret, [cls |-> "nil", id |-> -1], tx)
+  ELSE WRStep(pre, n, ret, e, tx)
+
 (***************************************************************************)
 (* Close of the open writer.                                               *)
 (***************************************************************************)
